@@ -63,10 +63,55 @@ func genFaultHistory(t *rapid.T, g txh.GenOpts) txh.History {
 
 // TestC07_EverySite: for a generated shape (committed prefix + victim), fail every backend call the
 // victim's Commit makes, one at a time (errors; for lock calls also the non-error "false").
-func TestC07_EverySite(t *testing.T) {
-	rec := stats.For("C07").Meta("fault_enumeration",
-		"shape = generated committed prefix (0-3 transactions) + victim writer over 1-2 stores with any value placement; the backend calls made by the victim's Commit (registry, blob store, store repository, transaction log, priority log, L2 cache/locks as seen by the transaction manager) are counted in a fault-free dry run and then EVERY call index is failed in turn (return an error before executing; lock calls also return false), thorough adds a second fault in the ensuing rollback; oracle: Commit nil => fresh-reader dump equals post-state, else equals pre-state for every store; disk walk loads everything reachable; a new transaction making the same changes without faults commits within 6 s (no expiry waited) and the stores then equal the post-state; non-trivial = Commit returned an error; distinct by (history, site index, mode)",
-		"a failed call is 'returned an error before doing anything'; calls made on phase 2's side goroutines after the commit point (replication, commit-change log, priority-log removal) are not fault sites")
+func TestC07_EverySite(t *testing.T) { everySite(t, "C07") }
+
+// TestC11_AfterFailedCommits: the same fault enumeration judged for C11: once a failed commit has rolled back, no
+// blob, registry entry or log file of it is left behind.
+func TestC11_AfterFailedCommits(t *testing.T) { everySite(t, "C11") }
+
+// censusSite: the call the current plan fails (read by the C11 census).
+var censusSite string
+
+func everySite(t *testing.T, prop string) {
+	if prop == "C11" {
+		knownOrphanValues := stats.Known("C11", "out-of-node-value-blobs-leak")
+		knownStep := stats.Known("C11", "failed-commit-step-in-progress-not-undone")
+		orphanCensus = func(r *txh.Reach, h txh.History, victim int) string {
+			if o := r.Orphans(); len(o) > 0 && knownStep && (censusSite == "Registry.Add" || censusSite == "BlobStore.Add") {
+				stats.For("C11").Exclude("the commit failed inside commitAddedNodes / commitNewRootNodes, whose partial writes stay (known finding)")
+				return ""
+			}
+			if o := r.Orphans(); len(o) > 0 {
+				if len(o) > 5 {
+					o = append(o[:5], "...")
+				}
+				return "these are left behind: " + strings.Join(o, "; ")
+			}
+			if o := r.OrphanValuesOf(true); len(o) > 0 {
+				return "these are left behind: " + strings.Join(o, "; ")
+			}
+			if o := r.OrphanValuesOf(false); len(o) > 0 {
+				// the recorded leak is about COMMITTED updates of separate-segment stores: only when the committed prefix
+				// contains such an update is the census of those stores skipped
+				if knownOrphanValues && prefixRewritesOutOfNode(h, victim) {
+					stats.For("C11").Exclude("unreferenced value blob of a separate-segment store after an earlier committed update (known finding)")
+					return ""
+				}
+				return "these are left behind: " + strings.Join(o, "; ")
+			}
+			return ""
+		}
+		defer func() { orphanCensus = nil }()
+		stats.For("C11").Meta("exploration",
+			"(failed-commit part) the C07 fault enumeration - every backend call of a generated victim's Commit failed in turn - followed by the orphan census of the disk once the commit's own rollback is over: every blob file is referenced, every registry slot reachable, no log file remains; non-trivial = Commit returned an error",
+			"a failed call is 'returned an error before doing anything'")
+	}
+	rec := stats.For(prop)
+	if prop == "C07" {
+		rec.Meta("fault_enumeration",
+			"shape = generated committed prefix (0-3 transactions) + victim writer over 1-2 stores with any value placement; the backend calls made by the victim's Commit (registry, blob store, store repository, transaction log, priority log, L2 cache/locks as seen by the transaction manager) are counted in a fault-free dry run and then EVERY call index is failed in turn (return an error before executing; lock calls also return false), thorough adds a second fault in the ensuing rollback; oracle: Commit nil => fresh-reader dump equals post-state, else equals pre-state for every store; disk walk loads everything reachable; a new transaction making the same changes without faults commits within 6 s (no expiry waited) and the stores then equal the post-state; non-trivial = Commit returned an error; distinct by (history, site index, mode)",
+			"a failed call is 'returned an error before doing anything'; calls made on phase 2's side goroutines after the commit point (replication, commit-change log, priority-log removal) are not fault sites")
+	}
 	pairs := stats.Tier() == "thorough"
 	knownLockVerify := stats.Known("C07", "item-lock-verify-failure-leaks-locks")
 	rapid.Check(t, func(t *rapid.T) {
@@ -114,6 +159,7 @@ func TestC07_EverySite(t *testing.T) {
 				if err != nil {
 					t.Fatalf("%v\n%s", err, h.Render())
 				}
+				censusSite = dry.Trace[k].Comp + "." + dry.Trace[k].Method
 				post, out, res := runVictim(e, h, victim, pre, plan)
 				msg := judgeFault(e, h, victim, pre, post, out, res, true)
 				e.Cleanup()
@@ -200,3 +246,20 @@ func TestC07_Known_ItemLockVerifyFailure(t *testing.T) {
 	t.Fatalf("%s: %s", what, msg)
 }
 
+// prefixRewritesOutOfNode: some committed transaction before the victim updates (or upserts / cursor-updates) an
+// item of a separate-segment store that is not actively persisted.
+func prefixRewritesOutOfNode(h txh.History, victim int) bool {
+	for i := 0; i < victim; i++ {
+		p := h.Txns[i]
+		if p.Mode != sop.ForWriting || p.End != "commit" {
+			continue
+		}
+		for _, o := range p.Ops {
+			pl := h.Stores[o.S].Placement
+			if (pl == 1 || pl == 2) && (o.Kind == "update" || o.Kind == "upsert" || o.Kind == "curUpdate" || o.Kind == "updateKey" || o.Kind == "curUpdateKey") {
+				return true
+			}
+		}
+	}
+	return false
+}
